@@ -436,6 +436,8 @@ impl<T> AtomicBucket<T> {
             let detached_block = unsafe { block_ptr.deref() };
             let claimed = detached_block.seal();
             while detached_block.len() < claimed {
+                #[cfg(metrics_verif)]
+                metrics::verif::point("bucket.clear.spin", 0);
                 backoff.snooze();
             }
 
